@@ -94,29 +94,9 @@ HELPERS = {}
 
 def _helpers():
     """name -> (callable(read, write, timeout_s) -> awaitable, kind)   kind: 'result' | 'bool'"""
-    if HELPERS:
-        return HELPERS
-    from chuk_mcp.protocol.messages.ping.send_messages import send_ping
-    from chuk_mcp.protocol.messages.tools.send_messages import send_tools_list, send_tools_call
-    from chuk_mcp.protocol.messages.resources.send_messages import (
-        send_resources_list, send_resources_read, send_resources_templates_list,
-        send_resources_subscribe, send_resources_unsubscribe,
-    )
-    from chuk_mcp.protocol.messages.prompts.send_messages import send_prompts_list, send_prompts_get
-
-    HELPERS.update({
-        "ping": (lambda r, w, t: send_ping(r, w, timeout=t), "bool"),
-        "tools/list": (lambda r, w, t: send_tools_list(r, w, timeout=t), "result"),
-        "tools/call": (lambda r, w, t: send_tools_call(r, w, "echo", {"x": 1}, timeout=t), "result"),
-        "resources/list": (lambda r, w, t: send_resources_list(r, w, timeout=t), "result"),
-        "resources/read": (lambda r, w, t: send_resources_read(r, w, "file:///a", timeout=t), "result"),
-        "resources/templates/list": (lambda r, w, t: send_resources_templates_list(r, w, timeout=t), "result"),
-        "resources/subscribe": (lambda r, w, t: send_resources_subscribe(r, w, "file:///a", timeout=t), "bool"),
-        "resources/unsubscribe": (lambda r, w, t: send_resources_unsubscribe(r, w, "file:///a", timeout=t), "bool"),
-        "prompts/list": (lambda r, w, t: send_prompts_list(r, w, timeout=t), "result"),
-        "prompts/get": (lambda r, w, t: send_prompts_get(r, w, "p", {"a": "b"}, timeout=t), "result"),
-    })
-    return HELPERS
+    from . import helpers
+    hs, _ = helpers.discover()
+    return {k: (v[0], v[1]) for k, v in hs.items()}
 
 
 def run_case(case):
